@@ -5,7 +5,8 @@
 
 Given ORDER, iteration (which calls next() on the D(p)-th of m iterators) and indexing (which uses
 E(p) directly) denote the same view OUT(p) = OUT(d_{D(p)}, E(p)).  That __init__ establishes ORDER
-from the sorted list of float keys is NOT proved: bounded stand-in `bounded-intersperse-init`."""
+from the sorted list of keys is proved in contracts/intersperse_init.py (rational arithmetic; the bounded
+stand-in `bounded-intersperse-init` stays as the native replay with real floats)."""
 import z3
 
 from pyvc import smt, views
